@@ -50,6 +50,7 @@ type ReverseSuffixSetSearcher struct {
 	suffixLiterals *literal.Seq // All suffix literals
 	matchStartZero bool         // True if pattern starts with .* (match always starts at 0)
 	revCachePool   sync.Pool
+	fwdCachePool   sync.Pool
 }
 
 // NewReverseSuffixSetSearcher creates a reverse suffix set searcher.
@@ -124,7 +125,24 @@ func NewReverseSuffixSetSearcher(
 	s.revCachePool = sync.Pool{
 		New: func() any { return s.reverseDFA.NewCache() },
 	}
+	s.fwdCachePool = sync.Pool{
+		New: func() any { return s.forwardDFA.NewCache() },
+	}
 	return s, nil
+}
+
+// matchEndFrom returns the end of the match that starts at matchStart. The suffix
+// candidate only shows that SOME match starting there ends at suffixEnd; the
+// leftmost-first match from that start may be longer (a greedy prefix running
+// over a later suffix), so the forward DFA decides. Falls back to suffixEnd.
+func (s *ReverseSuffixSetSearcher) matchEndFrom(haystack []byte, matchStart, suffixEnd int) int {
+	fwdCache := s.fwdCachePool.Get().(*lazy.DFACache)
+	end := s.forwardDFA.SearchAt(fwdCache, haystack, matchStart)
+	s.fwdCachePool.Put(fwdCache)
+	if end < 0 {
+		return suffixEnd
+	}
+	return end
 }
 
 // Find searches using Teddy suffix prefilter + reverse DFA.
@@ -137,68 +155,10 @@ func (s *ReverseSuffixSetSearcher) Find(haystack []byte) *Match {
 	if len(haystack) == 0 {
 		return nil
 	}
-
-	// Acquire cache once for the entire candidate loop
-	revCache := s.revCachePool.Get().(*lazy.DFACache)
-	defer s.revCachePool.Put(revCache)
-
-	// For greedy matching, find the LAST suffix candidate
-	// We scan forward and keep track of the last valid match
-	var lastMatch *Match
-	start := 0
-	minStart := 0 // Anti-quadratic guard for reverse scans
-
-	for {
-		// Find next suffix candidate
-		pos := s.prefilter.Find(haystack, start)
-		if pos == -1 {
-			break
-		}
-
-		// Get the length of the matched suffix literal
-		suffixLen := s.getSuffixLen(haystack, pos)
-		if suffixLen == 0 {
-			start = pos + 1
-			continue
-		}
-
-		suffixEnd := pos + suffixLen
-		if suffixEnd > len(haystack) {
-			suffixEnd = len(haystack)
-		}
-
-		// For unanchored patterns, .* cannot cross \n boundaries.
-		// Match starts at the beginning of the line containing the suffix.
-		if s.matchStartZero {
-			matchStart := lineStartBefore(haystack, 0, pos)
-			lastMatch = NewMatch(matchStart, suffixEnd, haystack)
-		} else {
-			// Use reverse DFA with anti-quadratic guard to find match start
-			matchStart := s.reverseDFA.SearchReverseLimited(revCache, haystack, 0, suffixEnd, minStart)
-			if matchStart == lazy.SearchReverseLimitedQuadratic {
-				// Quadratic behavior detected - fall back to PikeVM
-				pStart, pEnd, found := s.pikevm.Search(haystack)
-				if found {
-					return NewMatch(pStart, pEnd, haystack)
-				}
-				return lastMatch
-			}
-			if matchStart >= 0 {
-				lastMatch = NewMatch(matchStart, suffixEnd, haystack)
-			}
-			// Update anti-quadratic guard
-			if suffixEnd > minStart {
-				minStart = suffixEnd
-			}
-		}
-
-		start = pos + 1
-		if start >= len(haystack) {
-			break
-		}
-	}
-
-	return lastMatch
+	// The first match from position 0: candidates are tried left to right and the
+	// first one that verifies gives the leftmost match (keeping the LAST verified
+	// candidate, as before, returned the rightmost match of the haystack).
+	return s.FindAt(haystack, 0)
 }
 
 // FindAt searches for a match starting from position 'at'.
@@ -272,7 +232,7 @@ func (s *ReverseSuffixSetSearcher) FindAt(haystack []byte, at int) *Match {
 		// Use reverse DFA with anti-quadratic guard to find match start
 		matchStart := s.reverseDFA.SearchReverseLimited(revCache, haystack, at, suffixEnd, minStart)
 		if matchStart >= 0 {
-			return NewMatch(matchStart, suffixEnd, haystack)
+			return NewMatch(matchStart, s.matchEndFrom(haystack, matchStart, suffixEnd), haystack)
 		}
 		if matchStart == lazy.SearchReverseLimitedQuadratic {
 			// Quadratic behavior detected - fall back to PikeVM
@@ -377,7 +337,7 @@ func (s *ReverseSuffixSetSearcher) findIndicesAtImpl(haystack []byte, at int, re
 		// Use reverse DFA with anti-quadratic guard to find match start
 		matchStart := s.reverseDFA.SearchReverseLimited(revCache, haystack, at, suffixEnd, minStart)
 		if matchStart >= 0 {
-			return matchStart, suffixEnd, true
+			return matchStart, s.matchEndFrom(haystack, matchStart, suffixEnd), true
 		}
 		if matchStart == lazy.SearchReverseLimitedQuadratic {
 			// Quadratic behavior detected - fall back to PikeVM
